@@ -11,7 +11,9 @@ Correspondence (model = `lean/PercevalModel/Model/C08.lean`, run through `Driver
 * `simulate_detectors(dist, detectors, min_photons)` over every per-mode mixture of
   {None, PNR, threshold, interleaved, BS tree} for small m, random rational distributions,
   every filter 0..n+1 and None, fresh and long-lived detector objects;
-* `Processor.probs()` with detectors = model applied to the same processor's detector-free output.
+* `Processor.probs()` with detectors = model applied to the same processor's detector-free output;
+* `simulate_detectors_sample` / `Processor.samples()` with detectors: every draw lies in the support of the
+  mode-wise kernel product (and a 6-sigma frequency TEST against the law).
 
 Direct oracle on the implementation (independent of Lean, exact `Fraction`s): the closed form
 C(w,k)·S(n,k)·k!/w^n with the fold into the maximum, min(n,1), n, the multinomial law of the
@@ -815,6 +817,138 @@ def proc_cases(chk):
     return out
 
 
+
+# ------------------------------------------------------------------------------------------------
+# H. simulate_detectors_sample / Processor.samples() with detectors
+# ------------------------------------------------------------------------------------------------
+def run_sample_case(chk, case):
+    """one output sample through `simulate_detectors_sample`: every draw must lie in the support of the
+    mode-wise kernel product of that sample (exact oracle + the model's `sim` on the point distribution);
+    deterministic lists must give exactly the kernel image; drawn frequencies are additionally compared with
+    the law by a 6-sigma binomial band (a statistical TEST, not a proof)."""
+    import perceval as pcvl
+    from perceval.simulators._simulate_detectors import simulate_detectors_sample
+    from perceval.components.detector import get_detection_type
+    from perceval.utils import BasicState
+    s, dets = case["state"], case["dets"]
+    kinds = tuple(det_label(d) for d in dets)
+    objs = [POOL.get(d) for d in dets] if case.get("pooled") else [build_det(d) for d in dets]
+    spec, _ = spec_simulate([(tuple(s), Fraction(1))], dets, None)
+    support = {t for t, q in spec.items() if q > 0}
+    rep = chk.lean.ask({"op": "sample", "state": list(s), "dets": [lean_det(d) for d in dets], "minp": MINP,
+                        "fixed": True})
+    ty = spec_detection_type(dets)
+    chk.branch({"PNR": "sample-pnr", "Threshold": "sample-threshold"}.get(ty, "sample-general"))
+    if ty not in ("PNR", "Threshold") and any(d is None for d in dets):
+        chk.branch("sample-general-with-none")
+    chk.case(("sample", kinds, tuple(s)), nontrivial=ty not in ("PNR",) and max(s, default=0) >= 2,
+             sample={"sample": list(s), "dets": kinds})
+    pcvl.random_seed(case["seed"])
+    outs = []
+    try:
+        for _ in range(case["reps"]):
+            if case.get("pass_type"):
+                o = simulate_detectors_sample(BasicState(s), objs, get_detection_type(objs))
+            else:
+                o = simulate_detectors_sample(BasicState(s), objs)
+            outs.append(tuple(o))
+    except Exception as e:
+        sig = "sample-none-detector" if any(d is None for d in dets) else "sample-raises"
+        return ("violation", sig,
+                f"simulate_detectors_sample({list(s)}, {list(kinds)}) raised {type(e).__name__}: {e} "
+                f"(an unset detector is documented as PNR; simulate_detectors accepts the same list)", case)
+    for o in outs:
+        if o not in support:
+            return ("violation", "sample-outside-support",
+                    f"simulate_detectors_sample({list(s)}, {list(kinds)}) returned {list(o)}, which has probability 0 "
+                    f"under the mode-wise detector kernels (support {sorted(support)})", case)
+    if "err" in rep:
+        return ("broken", "model-vs-code", f"model rejects the sample case: {rep}", case)
+    m_support = {tuple(t) for t, q in rep["dist"] if Fraction(q) > 0}
+    big = {t for t, q in spec.items() if q > KEY_SLACK}
+    if not (big <= m_support <= support):
+        return ("broken", "model-vs-code", f"support of the model {sorted(m_support)} vs oracle {sorted(support)}", case)
+    n = len(outs)
+    if n >= 100:
+        chk.branch("sample-frequency-test")
+        for t, q in spec.items():
+            q = float(q)
+            f = outs.count(t) / n
+            if abs(f - q) > 6 * (q * (1 - q) / n) ** 0.5 + 4.0 / n:
+                return ("violation", "sample-frequencies",
+                        f"simulate_detectors_sample({list(s)}, {list(kinds)}): {list(t)} drawn with frequency {f:.3f} over "
+                        f"{n} draws, law {q:.3f} (6-sigma statistical test)", case)
+    return None
+
+
+def sample_cases(chk):
+    rng = chk.rng
+    out = []
+    for i in range(chk.pick(60, 400)):
+        m = rng.randint(1, 4)
+        kinds = [rng.choice(KINDS) for _ in range(m)]
+        r = rng.random()
+        if r < 0.12:
+            kinds = [rng.choice(["thr"])] * m
+        elif r < 0.2:
+            kinds = [rng.choice(["pnr", "none"]) for _ in range(m)]
+        elif r < 0.45 and m >= 2:
+            kinds[rng.randrange(m)] = "none"
+            kinds[(kinds.index("none") + 1) % m] = rng.choice(["thr", "interleaved", "bs"])
+        s = [rng.choice([0, 1, 2, 2, 3, 4]) for _ in range(m)]
+        out.append({"state": s, "dets": [gen_det(rng, k) for k in kinds], "seed": rng.randrange(1 << 30),
+                    "reps": 200 if i % 4 == 0 else 8, "pass_type": rng.random() < 0.5, "pooled": rng.random() < 0.5})
+    return out
+
+
+def run_procsample_case(chk, case):
+    """`Processor.samples()` (public entry point) with detectors on some modes: every sample lies in the support of
+    the detector law applied to the same processor's detector-free distribution."""
+    import perceval as pcvl
+    from perceval.utils import BasicState
+    m = case["circ"]["m"]
+    p0 = pcvl.Processor("SLOS", build_circuit(case["circ"]))
+    p0.min_detected_photons_filter(0)
+    p0.with_input(BasicState(case["input"]))
+    base = p0.probs(precision=0)["results"]
+    base_dist = [(tuple(s), Fraction(*float(q).as_integer_ratio())) for s, q in base.items() if q > 1e-12]
+    spec, _ = spec_simulate(base_dist, case["dets"], 0)
+    support = {t for t, q in spec.items() if q > 0}
+    kinds = tuple(det_label(d) for d in case["dets"])
+    chk.branch("processor-samples")
+    chk.case(("procsample", kinds, tuple(case["input"])), nontrivial=spec_detection_type(case["dets"]) != "PNR",
+             sample={"processor": case["circ"], "input": case["input"], "dets": kinds, "samples": case["count"]})
+    pcvl.random_seed(case["seed"])
+    p = pcvl.Processor("CliffordClifford2017", build_circuit(case["circ"]))
+    for i, d in enumerate(case["dets"]):
+        if d is not None:
+            p.add(i, build_det(d))
+    p.min_detected_photons_filter(0)
+    p.with_input(BasicState(case["input"]))
+    try:
+        outs = [tuple(o) for o in p.samples(case["count"])["results"]]
+    except Exception as e:
+        sig = "sample-none-detector" if any(d is None for d in case["dets"]) and isinstance(e, AttributeError) \
+            else "processor-samples-raises"
+        return ("violation", sig,
+                f"Processor.samples() with detectors {list(kinds)} raised {type(e).__name__}: {e}", case)
+    for o in outs:
+        if o not in support:
+            return ("violation", "processor-samples-outside-support",
+                    f"Processor.samples() with detectors {list(kinds)} returned {list(o)}, impossible under the detector "
+                    f"law applied to the detector-free distribution", case)
+    return None
+
+
+def procsample_cases(chk):
+    rng = chk.rng
+    out = []
+    for c in proc_cases(chk)[:chk.pick(10, 60)]:
+        c = dict(c, seed=rng.randrange(1 << 30), count=rng.randint(5, 30))
+        c.pop("minph", None)
+        out.append(c)
+    return out
+
 # ------------------------------------------------------------------------------------------------
 def dispatch(chk, kind, case):
     if kind == "detect":
@@ -827,6 +961,10 @@ def dispatch(chk, kind, case):
         return run_heralds_case(chk, case)
     if kind == "proc":
         return run_proc_case(chk, case)
+    if kind == "sample":
+        return run_sample_case(chk, case)
+    if kind == "procsample":
+        return run_procsample_case(chk, case)
     raise ValueError(kind)
 
 
@@ -843,7 +981,8 @@ def run(chk: core.Check):
                 "BSLayeredPPNR over (layers, reflectivity, photons); every detector list over a 7-letter alphabet up to "
                 "length 3/4 for get_detection_type; simulate_detectors over every per-mode mixture of "
                 "{none, pnr, threshold, interleaved, bs-tree} for m<=2/3 plus random m<=4, every filter 0..n+1/None; "
-                "Processor.probs() with detectors. distinct = distinct (detector, photons) / (kinds, states, filter) "
+                "Processor.probs() with detectors; simulate_detectors_sample and Processor.samples() draws against the support of "
+                "the kernel product. distinct = distinct (detector, photons) / (kinds, states, filter) "
                 "signatures; non-trivial = a multi-wire or tree detector hit by >=2 photons, resp. a non-PNR list on a "
                 "distribution with a >=2-photon state")
     chk.assumptions = [
@@ -854,13 +993,18 @@ def run(chk: core.Check):
         "simulate_detectors is exercised at prob_threshold = 0 (its default); Processor.probs() at precision = 0",
         "the all-PNR branch of simulate_detectors returns its input without applying the photon filter "
         "(callers filter upstream); modelled as coded",
+        "simulate_detectors_sample / Processor.samples(): only membership of every draw in the support of the proved law "
+        "is decided; agreement of the drawn frequencies with the law is a 6-sigma statistical TEST, not a proof",
+        "bsTree_half_eq_wires (balanced tree = 2^L wires) is not a theorem: compared numerically for L<=3 on every run",
     ]
     chk.required_branches = ["ppnr-fold", "ppnr-nofold", "more-photons-than-wires", "threshold", "pnr", "cache-hit",
                              "minp-trim", "bs-tree", "bs-unbalanced", "bs-cache-hit", "bs-leaf-law", "rejected",
                              "dtype-PNR", "dtype-Threshold", "dtype-PPNR", "dtype-Mixed",
                              "heralds-ok", "heralds-incompatible",
                              "sim-pnr-branch", "sim-threshold-branch", "sim-general-branch", "sim-mixed-kinds",
-                             "sim-empty-dist", "filter-drop", "filter-all-dropped", "processor-glue"]
+                             "sim-empty-dist", "filter-drop", "filter-all-dropped", "processor-glue",
+                             "sample-pnr", "sample-threshold", "sample-general", "sample-general-with-none",
+                             "sample-frequency-test", "processor-samples"]
     rng = chk.rng
     for kind, case in load_corpus():
         if kind == "sim":
@@ -899,6 +1043,8 @@ def run(chk: core.Check):
     for case in sim_cases(chk):
         handle_sim(chk, case)
     go("proc", proc_cases(chk))
+    go("sample", sample_cases(chk))
+    go("procsample", procsample_cases(chk))
     chk.exhaustive = False
     chk.extra["exhaustive_parts"] = {
         "Detector.detect": f"all 0<=max<=w<={chk.pick(8, 14)} and max=None, n<={chk.pick(10, 18)}",
